@@ -325,3 +325,32 @@ func GoodPreallocBounded(c *tlc.Container) []wsync.BlockHash {
 func GoodPreallocFromCount(c *tlc.Container) []int64 {
 	return make([]int64, 0, len(c.Files))
 }
+
+// BadLoopBoundFromWire iterates as many times as the stream says.
+func BadLoopBoundFromWire(r *wire.ReadContext) (int64, error) {
+	op := &pwr.SyncOp{}
+	if err := r.ReadMessage(op); err != nil {
+		return 0, err
+	}
+	var total int64
+	for i := int64(0); i < op.BlockSpan; i++ {
+		total += pwr.BlockSize
+	}
+	return total, nil
+}
+
+// GoodLoopBoundChecked bounds the span against trusted data first.
+func GoodLoopBoundChecked(r *wire.ReadContext, numBlocks int64) (int64, error) {
+	op := &pwr.SyncOp{}
+	if err := r.ReadMessage(op); err != nil {
+		return 0, err
+	}
+	if op.BlockSpan < 0 || op.BlockSpan > numBlocks {
+		return 0, errors.New("out of range")
+	}
+	var total int64
+	for i := int64(0); i < op.BlockSpan; i++ {
+		total += pwr.BlockSize
+	}
+	return total, nil
+}
